@@ -208,7 +208,7 @@ impl<'g> Cx<'g> {
         }
     }
 
-    fn paren_pat(s: &str) -> String {
+    pub fn paren_pat(s: &str) -> String {
         if s.contains(' ') && !s.starts_with('(') {
             format!("({})", s)
         } else {
